@@ -55,12 +55,13 @@ def programs_a(tier: str) -> List[tuple]:
 
 
 def observe_a(program: tuple, restore_at: tuple, medium: str) -> Tuple[Any, List[str]]:
-    cls = programs.make_class(program)
+    from .c07 import InBase  # declared inputs with defaults, which the steps read (recorded in the trace)
+    cls = programs.make_class(program, InBase)
     world = ckpt.CkptWorld(restore_at, list(RESUMES), medium)
     try:
         proc = world.run(cls)
         obs = (outcome(proc), repr(sorted(proc.outputs.items())), tuple(proc._trace),
-               tuple((t[0], t[1], t[2]) for t in world.trace if t[3] == 'enter'), proc.status if False else None)
+               tuple((t[0], t[1], t[2], t[4]) for t in world.trace if t[3] == 'enter'), None)
         return obs, list(world.errors), world.boundary, world.restores
     finally:
         world.finish()
